@@ -26,6 +26,9 @@ pub struct GCfg {
     /// iterator consumers do not start consuming until every client thread's first subscribe call
     /// has returned (the reducer is then blocked handing a pair to the iterator)
     pub lazy: bool,
+    /// all client threads first hammer the (small, blocking) queue; thread 0 calls iter() in the middle of
+    /// it, i.e. while other callers are parked inside dispatch on a full queue
+    pub late_iter: bool,
     pub perturb: u8,
     pub scripts: Vec<Script>,
 }
@@ -74,10 +77,13 @@ pub fn gen(rng: &mut Rng, tiny: bool, thorough: bool) -> GCfg {
     let iters: Vec<bool> = (0..n_threads).map(|_| rng.chance(1, 3)).collect();
     let policy = rng.below(3) as u8;
     let lazy = policy == POL_BLOCK && iters.iter().any(|x| *x) && rng.chance(1, 2);
+    let late_iter = policy == POL_BLOCK && !lazy && rng.chance(1, 3);
+    let cap = *rng.pick(&[1usize, 2, 5, 16]);
     GCfg {
         lazy,
+        late_iter,
         policy,
-        cap: *rng.pick(&[1usize, 2, 5, 16]),
+        cap: if late_iter { 1 + cap % 2 } else { cap },
         n_red: rng.range(1, 2) as u32,
         n_mw: rng.below(2) as u32,
         iters,
@@ -97,6 +103,7 @@ pub fn describe(c: &GCfg) -> J {
         ("middlewares", J::U(c.n_mw as u64)),
         ("programs", J::A(c.progs.iter().enumerate().map(|(i, p)| J::s(format!("{}{}; stop; unsubscribe all", if c.iters[i] { "iter()+consumer; " } else { "" }, p.iter().map(|o| OP_NAMES[*o as usize]).collect::<Vec<_>>().join("; ")))).collect())),
         ("lazy_consumers", J::B(c.lazy)),
+        ("iter_called_while_callers_are_parked_on_the_full_queue", J::B(c.late_iter)),
         ("hazard", J::s(["none", "iterator dropped before end of stream", "iter() after shutdown"][c.hazard as usize])),
     ])
 }
@@ -153,6 +160,7 @@ pub fn execute(c: &GCfg, seed: u64) -> W {
     let _keep = w.add_sub_arc(0, sid, Arc::new(sub), false);
     let ready = Counter::new();
     let subs_done = Counter::new();
+    let hammered = Counter::new();
     let n_scripts = c.scripts.len() as u64;
     let n_threads = c.progs.len() as u64;
     std::thread::scope(|sc| {
@@ -161,6 +169,7 @@ pub fn execute(c: &GCfg, seed: u64) -> W {
             let w = &w;
             let ready = &ready;
             let subs_done = &subs_done;
+            let hammered = &hammered;
             let notified = &notified;
             hs.push(std::thread::Builder::new().name(format!("client{}", t)).spawn_scoped(sc, move || {
                 let mut rng = Rng::new(mix(seed, 3000 + t as u64));
@@ -187,6 +196,20 @@ pub fn execute(c: &GCfg, seed: u64) -> W {
                     notified.wait_at_least(2, 20);
                     subs.push(w.add_direct(0, NOGATE, false, false, false));
                     subs_done.add(1);
+                }
+                let mut late_consumer = None;
+                if c.late_iter {
+                    let n = if cfg!(miri) { 4 } else { 12 };
+                    for j in 0..n {
+                        if t == 0 && j == n / 3 {
+                            let (id, it) = w.add_iter(0, false);
+                            late_consumer = Some(std::thread::Builder::new().name("consumerL".into()).spawn_scoped(sc, move || consume(w, id, it, None, None)).unwrap());
+                        }
+                        w.dispatch(0, j % 3, Act { id: act_id(0, 20 + t as u32, j + 1), script: 0 });
+                    }
+                    // nobody shuts the store down before every thread is through this phase
+                    hammered.add(1);
+                    hammered.wait_at_least(n_threads, 60);
                 }
                 for op in prog {
                     w.ctx.perturb();
@@ -258,6 +281,9 @@ pub fn execute(c: &GCfg, seed: u64) -> W {
                     consume(w, id, it, None, None);
                 }
                 if let Some(h) = consumer {
+                    h.join().unwrap();
+                }
+                if let Some(h) = late_consumer {
                     h.join().unwrap();
                 }
             }).unwrap());
